@@ -551,16 +551,25 @@ def structural_pairs():
         ("g1", a, a), ("g1", a, [sq(4, 0, 8, 4)]), ("g1", a, [sq(4, 4, 8, 8)]), ("g1", a, [sq(5, 0, 8, 4)]),
         ("g1", a + [sq(6, 6, 9, 9)], [sq(2, 2, 7, 7)]),
         ("g1", [sq(0, 0, 4, 4) + [[(1, 1), (1, 3), (3, 3), (3, 1), (1, 1)]]], [sq(2, 2, 6, 6)]),
+        # interior rings without area: empty, one point, two points (valid: they enclose nothing)
+        ("g1", [sq(0, 0, 4, 4) + [[]]], [sq(2, 2, 6, 6)]),
+        ("g1", [sq(2, 2, 6, 6)], [sq(0, 0, 4, 4) + [[], []]]),
+        ("g1", [sq(0, 0, 4, 4) + [[(1, 1)]]], [sq(2, 2, 6, 6)]),
+        ("g1", [sq(0, 0, 4, 4) + [[(1, 1), (1, 1)]]], [sq(2, 2, 6, 6) + [[(3, 3), (5, 5), (3, 3)]]]),
+        ("g1", [[[]] + [[(1, 1), (1, 3), (3, 3), (3, 1), (1, 1)]]], [sq(0, 0, 4, 4)]),
     ]
 
 
 def build_cases(prop, tier, rng):
     """returns list of (label, [Case], dbg)"""
     q = tier == "quick"
-    fams_all = ["g1", "g2", "g3", "g4", "g12", "g13", "g14", "g2", "g10", "g11", "g1", "g12", "g13", "g15", "g18", "g19", "g21", "g22", "g23", "g24", "g25", "g26", "g27"]
+    fams_all = ["g1", "g2", "g3", "g4", "g12", "g13", "g14", "g2", "g10", "g11", "g1", "g12", "g13", "g15", "g18", "g19", "g21", "g22", "g23", "g24", "g25", "g26", "g27", "g28", "g29"]
     out = []
+    # the number of generated pairs grows with the number of families, so that a new family does not thin
+    # out the others (17 families when the sizes below were chosen)
+    grow = lambda k: (k * len(fams_all) + 16) // 17
     if prop in ("C01", "C02", "C04"):
-        n = 300 if q else 7200
+        n = grow(300) if q else 7200
         pairs = corpus_pairs(150) + structural_pairs() + gen_pairs(rng, fams_all + (["g9"] if prop == "C01" else []), n)
         out.append(("core", plans.plan_core(prop, rng, pairs), False))
         if prop == "C01" and not q:
@@ -578,21 +587,21 @@ def build_cases(prop, tier, rng):
         out.append(("fn", extra.function_cases(rng, 300 if q else 5000, prec="f64"), False))
         out.append(("fn32-dbg", extra.function_cases(rng, 200 if q else 3000, prec="f32", dbg=True), True))
     elif prop == "C05":
-        n = 200 if q else 5000
+        n = grow(200) if q else 5000
         out.append(("c05", plans.plan_c05(rng, corpus_pairs(150) + structural_pairs() + gen_pairs(rng, fams_all, n)), False))
     elif prop == "C06":
-        n = 60 if q else 1500
+        n = grow(60) if q else 1500
         out.append(("c06", plans.plan_c06(rng, corpus_pairs(80) + gen_pairs(rng, fams_all, n) + gen_pairs(rng, ["g21"], 2 * n)), False))
     elif prop == "C07":
-        n = 60 if q else 1500
+        n = grow(60) if q else 1500
         pp = [("g1",) + plans.single_poly_pairs(rng, "g1") for _ in range(n // 3)]
         pp += [("g26",) + gen.FAMILIES["g26"](rng) for _ in range(n // 6)]
         out.append(("c07", plans.plan_c07(rng, corpus_pairs(80) + pp + gen_pairs(rng, fams_all + ["g14"], n)), False))
     elif prop == "C08":
-        n = 60 if q else 1500
+        n = grow(60) if q else 1500
         out.append(("c08", plans.plan_c08(rng, corpus_pairs(80) + gen_pairs(rng, fams_all, n) + gen_pairs(rng, ["g18", "g15", "g13", "g18"], n // 2)), False))
     elif prop == "C09":
-        n = 60 if q else 1500
+        n = grow(60) if q else 1500
         out.append(("c09", plans.plan_c09(rng, corpus_pairs(80) + gen_pairs(rng, fams_all, n)), False))
     elif prop == "C10":
         n = 150 if q else 4000
@@ -606,11 +615,11 @@ def build_cases(prop, tier, rng):
         n = 240 if q else 3000
         out.append(("c11", plans.plan_c11(rng, corpus_pairs(40) + gen_pairs(rng, ["g1", "g12", "g2", "g10", "g13", "g4", "g15", "g18", "g1", "g15"], n)), False))
     elif prop == "C12":
-        n = 60 if q else 600
+        n = grow(60) if q else 600
         # g16: members sharing boundary segments (invalid on purpose: determinism is claimed for all operands)
         out.append(("c12", plans.plan_core("C12", rng, corpus_pairs(80) + gen_pairs(rng, fams_all + ["g15", "g16", "g15", "g16"], n)), False))
     elif prop in ("C13", "C14"):
-        n = 200 if q else 5000
+        n = grow(200) if q else 5000
         pairs = corpus_pairs(60) + structural_pairs() + gen_pairs(rng, fams_all, n)
         out.append(("sweep", extra.sweep_cases(prop, rng, pairs), False))
         if prop == "C14":
